@@ -6,6 +6,8 @@ import (
 	"strconv"
 	"time"
 
+	"github.com/andydunstall/yamux"
+
 	pkggossip "github.com/andydunstall/piko/pkg/gossip"
 	"github.com/andydunstall/piko/pkg/log"
 	"github.com/andydunstall/piko/server/cluster"
@@ -84,7 +86,17 @@ func Harness_C20_ops() {
 	// from here on the node is "running": the routing table's local endpoint
 	// counters may only be changed under the registry mutex (lock recorder rule)
 	v.Tag("serialised")
-	switch v.Choose("op", 16) {
+	switch v.Choose("op", 17) {
+	case 16: // upstream server session bookkeeping (handlers, rebalance task, status reads)
+		srv := &Server{sessions: map[*yamux.Session]struct{}{}, cluster: n.cs, logger: log.NewNopLogger()}
+		s1, s2 := &yamux.Session{}, &yamux.Session{}
+		srv.addSession(s1)
+		srv.addSession(s2)
+		_ = srv.openSessions()
+		srv.shedSessions(v.Int("shed", 0, 3))
+		srv.removeSession(s1)
+		srv.Rebalance()
+		v.Cover("sessions")
 	case 0:
 		u, ok := n.m.Select("e"+strconv.Itoa(v.Choose("ep", 3)), v.Choose("allow", 2) == 1)
 		if ok && u != nil && !u.Forward() {
